@@ -14,32 +14,32 @@ theorem insert_inv {P : Sketch → Prop} (L : SketchLaws P) {p : Params} (hq : N
     (hsm : SmallSketch p) {s : UState} (hi : Inv P p s) (k v : Nat) :
     Inv P p (insert p s k v) := by
   obtain ⟨h1, _, h3⟩ := maintain_spec hq hi.inv
-  have hi1 : Inv P p (maintain p s) := ⟨h1, by rw [h3.sk]; exact hi.sk⟩
+  have hi1 : Inv P p (maintain p s) := hi.of_aux h1 h3.sk h3.skOn
   unfold insert
   dsimp only
   cases hg : AL.get? (maintain p s).map k with
   | some old =>
     dsimp only
-    refine ⟨handleUpdate_inv h1 hg _ (opTs_isSome p _), ?_⟩
-    obtain ⟨id, n, _, _, _, heq⟩ := handleUpdate_eq (entry := { val := v, weight := p.weigh k v })
-      h1.struct hg (opTs p (maintain p s)) (p.weigh k v) (opTs_isSome p _)
-    rw [heq]
-    dsimp only
-    have : ∀ (x : UState), x.sk = (maintain p s).sk → P x.sk := fun x hx => by rw [hx]; exact hi1.sk
-    apply this
-    cases old.wo with
-    | none => simp [touchAo]
-    | some wid =>
+    refine hi1.of_aux (handleUpdate_inv h1 hg _ (opTs_isSome p _)) ?_ ?_
+    all_goals
+      obtain ⟨id, n, _, _, _, heq⟩ := handleUpdate_eq (entry := { val := v, weight := p.weigh k v })
+        h1.struct hg (opTs p (maintain p s)) (p.weigh k v) (opTs_isSome p _)
+      rw [heq]
       dsimp only
-      split
-      · simp [touchAo, touchWo]
-      · split <;> simp [touchAo]
+      cases old.wo with
+      | none => simp [touchAo]
+      | some wid =>
+        dsimp only
+        split
+        · simp [touchAo, touchWo]
+        · split <;> simp [touchAo]
   | none =>
     dsimp only
     exact handleInsert_inv L hsm hi1 _ hg
 
 theorem init_inv {P : Sketch → Prop} (L : SketchLaws P) (p : Params) : Inv P p {} := by
-  refine ⟨⟨⟨?_, ?_, ?_, ?_, ?_, ?_, ?_, ?_, ?_, ?_, ?_⟩, ⟨?_, ?_, ?_⟩⟩, L.init⟩ <;> simp [totalW]
+  refine ⟨⟨⟨?_, ?_, ?_, ?_, ?_, ?_, ?_, ?_, ?_, ?_, ?_⟩, ⟨?_, ?_, ?_⟩⟩, L.init, fun _ => rfl⟩ <;>
+    simp [totalW]
 
 /-- One step from a state satisfying the invariant: the invariant holds again (in
 particular no fault), whatever the operation. -/
@@ -67,8 +67,9 @@ theorem step_inv {P : Sketch → Prop} (L : SketchLaws P) {p : Params} (hq : NoQ
   | sync => exact hi
   | adv d =>
     dsimp only
-    exact ⟨invU_of hi.inv (structP_congr hi.inv.struct rfl rfl rfl rfl (by simp [hnf])) rfl rfl rfl,
-      hi.sk⟩
+    exact hi.of_aux
+      (invU_of hi.inv (structP_congr hi.inv.struct rfl rfl rfl rfl (by simp [hnf])) rfl rfl rfl)
+      rfl rfl
   | snap => exact hi
   | freq k => exact hi
 
